@@ -4,8 +4,9 @@
 (* misbehaves (drop / duplicate / delay) for a finite prefix and is then    *)
 (* reliable with latency below the resend timeout.  Times are virtual ms.   *)
 (*   reset                                                                  *)
-(*   pgCfg {keepalive: 0|1, boundMs, quietMs}                                *)
-(*   faultEnd {t}             from now on the transport is reliable         *)
+(*   pgCfg {keepalive: 0|1}                                                 *)
+(*   faultEnd {t, baseMs}     from now on the transport is reliable; baseMs *)
+(*                            is the resend timeout then in force           *)
 (*   sendRet {ep, m, err, t}  Send returned (err "" = accepted)             *)
 (*   recvRet {ep, m, err, t}  Recv returned                                 *)
 (*   closeQuit {ep, t}        an endpoint starts closing                    *)
@@ -27,36 +28,40 @@ Trace == ndJsonDeserialize(TraceFile)
 EP == {"c", "s"}
 Peer(e) == IF e = "c" THEN "s" ELSE "c"
 
-VARIABLES l, ka, bound, quiet, t0, acc, got, closedAt, harness, lastTxd
-tvars == <<l, ka, bound, quiet, t0, acc, got, closedAt, harness, lastTxd>>
+VARIABLES l, ka, bound, quiet, settle, t0, acc, got, closedAt, harness, lastTxd
+tvars == <<l, ka, bound, quiet, settle, t0, acc, got, closedAt, harness, lastTxd>>
 Ev == Trace[l]
 Is(o) == l <= Len(Trace) /\ Trace[l].ev = o
 Adv == l' = l + 1
 E == Ev.ep
 
-Fresh == /\ ka' = 0 /\ bound' = 0 /\ quiet' = 0 /\ t0' = 0
+Fresh == /\ ka' = 0 /\ bound' = 0 /\ quiet' = 0 /\ settle' = 0 /\ t0' = -1
          /\ acc' = [e \in EP |-> <<>>]      \* accept times of e's messages
          /\ got' = [e \in EP |-> 0]         \* messages e's Recv has returned
          /\ closedAt' = -1 /\ harness' = FALSE /\ lastTxd' = -1
 
-TraceInit == /\ l = 1 /\ ka = 0 /\ bound = 0 /\ quiet = 0 /\ t0 = 0
+TraceInit == /\ l = 1 /\ ka = 0 /\ bound = 0 /\ quiet = 0 /\ settle = 0 /\ t0 = -1
              /\ acc = [e \in EP |-> <<>>] /\ got = [e \in EP |-> 0]
              /\ closedAt = -1 /\ harness = FALSE /\ lastTxd = -1
 
 Keep(vs) == UNCHANGED vs
 
 TReset == Is("reset") /\ Adv /\ Fresh
-TCfg == /\ Is("pgCfg") /\ Adv /\ ka' = Ev.keepalive /\ bound' = Ev.boundMs
-        /\ quiet' = Ev.quietMs
-        /\ UNCHANGED <<t0, acc, got, closedAt, harness, lastTxd>>
+TCfg == /\ Is("pgCfg") /\ Adv /\ ka' = Ev.keepalive
+        /\ UNCHANGED <<bound, quiet, settle, t0, acc, got, closedAt, harness, lastTxd>>
+\* the link is reliable from here on; baseMs is the resend timeout in force
+\* (the larger of the two endpoints'), the time bounds scale with it
 TFaultEnd == /\ Is("faultEnd") /\ Adv /\ t0' = Ev.t
-             /\ UNCHANGED <<ka, bound, quiet, acc, got, closedAt, harness, lastTxd>>
+             /\ bound' = 25 * Ev.baseMs + 15000
+             /\ quiet' = 12 * Ev.baseMs
+             /\ settle' = 22 * Ev.baseMs
+             /\ UNCHANGED <<ka, acc, got, closedAt, harness, lastTxd>>
 
 TSendRet == /\ Is("sendRet") /\ Adv
             /\ acc' = IF Ev.err = "" THEN [acc EXCEPT ![E] = Append(@, Ev.t)] ELSE acc
             \* a Send fails only on a closed connection
             /\ Ev.err # "" => closedAt >= 0
-            /\ UNCHANGED <<ka, bound, quiet, t0, got, closedAt, harness, lastTxd>>
+            /\ UNCHANGED <<ka, bound, quiet, settle, t0, got, closedAt, harness, lastTxd>>
 
 Max(a, b) == IF a > b THEN a ELSE b
 
@@ -66,42 +71,48 @@ TRecvRet ==
     /\ IF Ev.err = ""
        THEN /\ got' = [got EXCEPT ![E] = @ + 1]
             /\ got[E] + 1 <= Len(acc[Peer(E)])
-            /\ Ev.t <= Max(acc[Peer(E)][got[E] + 1], t0) + bound
+            /\ t0 >= 0 => Ev.t <= Max(acc[Peer(E)][got[E] + 1], t0) + bound
        ELSE /\ closedAt >= 0 /\ UNCHANGED got
-    /\ UNCHANGED <<ka, bound, quiet, t0, acc, closedAt, harness, lastTxd>>
+    /\ UNCHANGED <<ka, bound, quiet, settle, t0, acc, closedAt, harness, lastTxd>>
 
 \* an endpoint closes by itself: never with keepalive off
 TCloseQuit ==
     /\ Is("closeQuit") /\ Adv
     /\ (ka = 0 => harness)
     /\ closedAt' = IF closedAt = -1 THEN Ev.t ELSE closedAt
-    /\ UNCHANGED <<ka, bound, quiet, t0, acc, got, harness, lastTxd>>
+    /\ UNCHANGED <<ka, bound, quiet, settle, t0, acc, got, harness, lastTxd>>
 
 THarness == /\ Is("harnessClose") /\ Adv /\ harness' = TRUE
-            /\ UNCHANGED <<ka, bound, quiet, t0, acc, got, closedAt, lastTxd>>
+            /\ UNCHANGED <<ka, bound, quiet, settle, t0, acc, got, closedAt, lastTxd>>
 
 TTxd == /\ Is("tx") /\ Adv
         /\ lastTxd' = IF Ev.k = "DATA" /\ Ev.m # 0 THEN Ev.t ELSE lastTxd
-        /\ UNCHANGED <<ka, bound, quiet, t0, acc, got, closedAt, harness>>
+        /\ UNCHANGED <<ka, bound, quiet, settle, t0, acc, got, closedAt, harness>>
+
+LastAcc(e) == IF acc[e] = <<>> THEN 0 ELSE acc[e][Len(acc[e])]
+AppIdle(now) == \A e \in EP : Max(LastAcc(e), t0) + settle <= now
 
 \* end of observation: everything accepted long enough ago has arrived (or a
 \* side closed), and the wire has been free of DATA for the quiet window
 TEnd ==
-    /\ Is("pgEnd") /\ Adv
-    /\ UNCHANGED <<ka, bound, quiet, t0, acc, got, closedAt, harness, lastTxd>>
+    /\ Is("pgEnd") /\ Adv /\ t0 >= 0
+    /\ UNCHANGED <<ka, bound, quiet, settle, t0, acc, got, closedAt, harness, lastTxd>>
     /\ closedAt = -1 =>
           /\ \A e \in EP : \A k \in 1..Len(acc[e]) :
                 (Max(acc[e][k], t0) + bound <= Ev.t) => got[Peer(e)] >= k
-          /\ (\A e \in EP : got[Peer(e)] = Len(acc[e])) => lastTxd <= Ev.t - quiet
+          \* quiescence is only due once the application has been idle (its last
+          \* Send accepted, the faults over) for the settle period
+          /\ (AppIdle(Ev.t) /\ \A e \in EP : got[Peer(e)] = Len(acc[e])) =>
+                lastTxd <= Ev.t - quiet
           \* the windows drain once everything is delivered (with keepalive
           \* on, one ping may be outstanding at any moment)
-          /\ (\A e \in EP : got[Peer(e)] = Len(acc[e])) =>
+          /\ (AppIdle(Ev.t) /\ \A e \in EP : got[Peer(e)] = Len(acc[e])) =>
                 (Ev.sizeC <= ka /\ Ev.sizeS <= ka)
 
 Handled == {"reset", "pgCfg", "faultEnd", "sendRet", "recvRet", "closeQuit",
             "harnessClose", "tx", "pgEnd"}
 TSkip == /\ l <= Len(Trace) /\ Ev.ev \notin Handled /\ Adv
-         /\ UNCHANGED <<ka, bound, quiet, t0, acc, got, closedAt, harness, lastTxd>>
+         /\ UNCHANGED <<ka, bound, quiet, settle, t0, acc, got, closedAt, harness, lastTxd>>
 
 TraceNext == TReset \/ TCfg \/ TFaultEnd \/ TSendRet \/ TRecvRet \/ TCloseQuit
              \/ THarness \/ TTxd \/ TEnd \/ TSkip
